@@ -166,6 +166,8 @@ where
     program: Program,
     row: LineRow,
     instructions: LineInstructions<R>,
+    // True if a row of the current sequence has been returned.
+    in_sequence: bool,
 }
 
 type OneShotLineRows<R, Offset = <R as Reader>::Offset> =
@@ -189,6 +191,7 @@ where
             program,
             row,
             instructions,
+            in_sequence: false,
         }
     }
 
@@ -202,6 +205,7 @@ where
             program,
             row,
             instructions,
+            in_sequence: false,
         }
     }
 
@@ -234,11 +238,20 @@ where
                 Ok(Some(instruction)) => {
                     if self.row.execute(instruction, &mut self.program)? {
                         if self.row.tombstone {
+                            if self.row.end_sequence && self.in_sequence {
+                                // Rows of this sequence were returned before the tombstone
+                                // address was set, so the sequence still needs to be ended
+                                // (at the last valid address). Otherwise the rows of the next
+                                // sequence would appear to continue this one.
+                                self.in_sequence = false;
+                                return Ok(Some((self.header(), &self.row)));
+                            }
                             // Perform any reset that was required for the tombstone row.
                             // Normally this is done when `next_row` is called again, but for
                             // tombstones we loop immediately.
                             self.row.reset(self.program.header());
                         } else {
+                            self.in_sequence = !self.row.end_sequence;
                             return Ok(Some((self.header(), &self.row)));
                         }
                     }
